@@ -176,8 +176,10 @@ def one_model(ctx, prog, script, rng):
             res = {}
             call_opts = dict(opts)
             off = rng.choice([0, 0, 0, -1, 1, 2])
-            if feasible and off and 0 <= tn + off < n:
-                call_opts['offset'] = off       # seeds the endogenous variables of period t from t+offset: still only period t may change
+            if off and 0 <= tn + off < n and (feasible or 0 <= tn < n):
+                # seeds the endogenous variables of period t from t+offset: still only period t may change - and nothing at all when the
+                # period itself is refused for want of lags / leads
+                call_opts['offset'] = off
             with ref.quiet():
                 try:
                     # the position may be an integer of another integer type (np.flatnonzero, np.argmax, ... hand back NumPy integers)
@@ -197,7 +199,7 @@ def one_model(ctx, prog, script, rng):
                     served = [e for e in m.__dict__['v_log'] if e[0] == 'r' and isinstance(e[2], (int, np.integer)) and e[2] < 0]
                     ctx.violation('infeasible-period-served', f'solve_t({t}) on a span of {n} with LAGS={L}, LEADS={D} returned {res["ret"]!r} instead of being rejected (negative raw indexes read: {[(e[1], int(e[2])) for e in served][:4]})', case)
                 elif changed:
-                    ctx.count('infeasible_request_changed_state')
+                    ctx.violation('rejected-call-mutates', f'{entry}({t}, {call_opts.get("offset", 0) and "offset=" + str(call_opts["offset"])}) was refused ({type(res["exc"]).__name__}: no room for LAGS={L} / LEADS={D}) yet changed {sorted(changed)[:6]}', case)
                 continue
             if isinstance(res.get('exc'), IndexError):
                 # a period inside the default range, with any offset that stays inside the span, is never "out of range"
